@@ -96,6 +96,7 @@ func (r *Run) call(st *State, fr *Frame, x *ssa.Call, b *ssa.BasicBlock, idx int
 							fr.snaps = map[string]*State{}
 						}
 						fr.snaps[f[0]] = st.clone()
+						r.labelReached(f[0])
 					}
 				}
 			}
